@@ -12,6 +12,11 @@ void ExpressionStatementHandler::handle_expression_statement(
         // 式文として評価
         interpreter_->expression_evaluator_->evaluate_expression(node);
     } catch (const ReturnException &e) {
+        // `expr?;` : the exception carries the Err/None that must leave the
+        // enclosing function, it is not a discarded return value
+        if (node->node_type == ASTNodeType::AST_ERROR_PROPAGATION) {
+            throw;
+        }
         // 関数呼び出し文でのreturn値は無視する（void文として扱う）
         // struct、array、stringの戻り値も含めて例外を伝播させない
     }
